@@ -29,7 +29,26 @@ def discharge(ex, ob, timeout_ms):
         except Exception:
             m = None
     else:
-        ob.status = 'undecided'
+        # second attempt: fresh solver, sliced query, generous budget (the
+        # first budget is sized for the common case; verdicts must not flip
+        # when all cores are busy)
+        from engine import smt
+        s2 = z3.Solver()
+        s2.set('timeout', max(6 * timeout_ms, 60000))
+        allc = list(ex.axioms) + list(ob.pc)
+        neg = z3.Not(ob.goal)
+        idx = smt.relevant(allc, smt.symbols(neg))
+        for i in sorted(idx):
+            s2.add(allc[i])
+        s2.add(neg)
+        r2 = s2.check()
+        if r2 == z3.unsat:
+            ob.status = 'proved'
+            ob.extra['by'] = 'z3 (retry)'
+        elif r2 == z3.sat:
+            ob.status = 'refuted'
+        else:
+            ob.status = 'undecided'
 
 
 def model_for(ex, ob, timeout_ms):
@@ -59,6 +78,15 @@ def model_for(ex, ob, timeout_ms):
     if m is None:
         return None
     out = {}
+    # complete the model on the parsed arguments (don't-care values would
+    # otherwise be replaced by the Python-level defaults in the replay)
+    for nm_, t_ in getattr(ex, 'parsed_terms', {}).items():
+        try:
+            v = m.eval(t_, model_completion=True)
+            if z3.is_int_value(v):
+                out[nm_] = v.as_long()
+        except Exception:
+            pass
     for d in m.decls():
         if d.arity() == 0:
             v = m[d]
@@ -105,9 +133,13 @@ def verify_function(tu, fname, externs, init=pycfunction_init, config=None,
         return rep
     rep['paths'] = len(finished)
     rep['params'] = None
+    ex.parsed_terms = {}
     for st, kind, val in finished:
         if st.ghost.get('parse_codes'):
             rep['params'] = st.ghost['parse_codes']
+            for k_, v_ in st.ghost.get('parsed', {}).items():
+                if z3.is_expr(v_):
+                    ex.parsed_terms[k_] = v_
             break
     # gather obligations over all paths: an obligation *site* is proved iff
     # every path instance is proved.  Instances shared by several paths
